@@ -165,10 +165,31 @@ func (x *Exec) vrtCall(g *G, fn *ssa.Function, args []Value) Value {
 		x.known = append(x.known, knownRegion{x.strArg(args[0]), args[1].(*Term)})
 		return nil
 	case "vQuiesce":
-		// let everything else run until blocked; harness resumes when it is
-		// the only runnable goroutine.
-		x.quiesceReq = true
-		x.cur = nil
+		// let everything else run until blocked; the caller resumes only when
+		// no other goroutine is runnable (also under delay-bounded scheduling)
+		if x.quiesced[g] {
+			delete(x.quiesced, g)
+			return nil
+		}
+		others := false
+		for _, o := range x.gs {
+			if o != g && o.runnable() {
+				others = true
+			}
+		}
+		if !others {
+			return nil
+		}
+		x.quiesced[g] = true
+		g.wcond = func() bool {
+			for _, o := range x.gs {
+				if o != g && o.runnable() {
+					return false
+				}
+			}
+			return true
+		}
+		x.block(g, wCond, "quiesce")
 		return nil
 	case "vNow":
 		return x.now
@@ -433,7 +454,7 @@ func (h *Harness) wantCoverWitness(label string) bool {
 func (h *Harness) runPath(ps *PathSolver, prefix []int) (res *PathResult) {
 	res = &PathResult{}
 	x := &Exec{P: h.P, H: h, sv: ps, prefix: prefix, globals: map[*ssa.Global]*Value{},
-		covers: map[string]bool{}, natives: map[*Value]*Native{}, natTimers: map[*Value]*Timer{}, encoded: map[*Str][]*Term{}, sleeping: map[*G]*bool{}, funcsHit: map[*ssa.Function]int{}, res: res}
+		covers: map[string]bool{}, natives: map[*Value]*Native{}, natTimers: map[*Value]*Timer{}, quiesced: map[*G]bool{}, encoded: map[*Str][]*Term{}, sleeping: map[*G]*bool{}, funcsHit: map[*ssa.Function]int{}, res: res}
 	x.now = MkBV(64, 1_000_000_000_000_000)
 	x.preemptBudget = 0
 	ps.begin()
